@@ -13,6 +13,11 @@ def contract(rng_o, rng_n, has_deadline):
     /*S*/     cap_post(old, %(o)s, new, %(n)s, res@, true),    // [C11]
     /*L*/     (%(dln)s && alg != Algorithm::Patience) ==> cap_eqs(old, %(o)s, new, %(n)s, res@, false)
     /*L*/         == lcs_len(old, %(o)s.start as int, %(o)s.end as int, new, %(n)s.start as int, %(n)s.end as int),   // [C03]
+    /*L*/     // C02: identical inputs give only Equal ops (none for two empty inputs) - for the minimal algorithms without deadline
+    /*L*/     (%(dln)s && alg != Algorithm::Patience && (%(o)s.end - %(o)s.start) == (%(n)s.end - %(n)s.start)
+    /*L*/         && (forall|i: int| 0 <= i < %(o)s.end - %(o)s.start ==> #[trigger] relk(rel_of(old, new), %(o)s.start as int, %(n)s.start as int, i)))
+    /*L*/         ==> (res@.len() == (if %(o)s.end > %(o)s.start { 1nat } else { 0nat })
+    /*L*/              && (%(o)s.end > %(o)s.start ==> res@[0] == DiffOp::Equal { old_index: %(o)s.start, new_index: %(n)s.start, len: (%(o)s.end - %(o)s.start) as usize })),
 ''' % {'o': rng_o, 'n': rng_n, 'dln': ('deadline is None' if has_deadline else 'true'), 'dls': ('deadline is None,   // exactness is claimed without a deadline only (the deadline fallback emits an Insert that carries the start of the deleted block)' if has_deadline else 'true,')}
 i = o.find('pub fn capture_diff<Old, New>(')
 o.before('{', contract('old_range', 'new_range', False), start=i)
@@ -85,6 +90,13 @@ proof {
     assert(xs.ok && xs.oc == oe && xs.nc == ne);
     assert(evs_of(cp.ops_spec()) == rp.em_());
     assert(xs.eqs == seg_eqs(rel, lvl, s, os, ns, oe, ne));   // [C03]
+    if deadline is None && alg != Algorithm::Patience && oe - os == ne - ns
+        && (forall|i: int| 0 <= i < oe - os ==> #[trigger] relk(rel, os, ns, i)) {
+        lemma_lcs_prefix(old, os, oe, new, ns, ne, oe - os);
+        lemma_lcs_empty(old, oe, oe, new, ne, ne);
+        lemma_x_only_equal(rel, rp.x0(), rp.em_());
+        if rp.em_().len() == 1 { assert(cp.ops_spec()[0] == op_of(rp.em_()[0])) by { lemma_op_of_ev_of(cp.ops_spec()[0]); } }
+    }
 }
 ''', '    ')
 o.save()
